@@ -274,6 +274,8 @@ GROUPS_MODEL = """
         <geom name="d_g3" type="capsule" fromto="0 0 0 0.1 0.1 0.2" size="0.02" group="3" rgba="0.7 0.7 0.1 0.6"/>
         <geom name="d_g4" type="sphere" size="0.04" pos="0 0.2 0" group="4" material="mclear" rgba="0.5 0.5 0.5 1"/>
         <geom name="d_g5" type="sphere" size="0.04" pos="0 0.3 0" group="5"/>
+        <geom name="d_grayalpha" type="sphere" size="0.03" pos="0.2 0.3 0" group="1" material="mplain" rgba="0.5 0.5 0.5 0.4"/>
+        <geom name="d_graymat" type="sphere" size="0.03" pos="0.3 0.3 0" group="2" material="mtex" rgba="0.5 0.5 0.5 1"/>
         <geom name="d_last_clear" type="sphere" size="0.04" pos="0 0.4 0" group="0" rgba="1 0 0 0"/>
       </body>
     </body>
